@@ -40,6 +40,7 @@ ASSUMPTIONS = {"*": ["the htpasswd/htdigest grammar of the independent reader: o
 
 USERS = ["alice", "bob", "carol", "ünï", "x y", "Bob"]
 REALMS = ["r1", "Realm Two", "ü"]
+UNNORMALISED = ["e\u0301ve", "\u212bke", "\u1112\u1161\u11ab", "u\u0308ni"]
 PWS = ["pw", "secret", "Pw", "pässword", "p w"]
 DEFAULT_CTX_SCHEMES = ["apr_md5_crypt", "bcrypt", "sha256_crypt", "sha512_crypt", "des_crypt", "ldap_sha1", "plaintext",
                        "md5_crypt", "sha1_crypt", "bsdi_crypt"]
@@ -132,6 +133,11 @@ def generate(rng, prop, tier):
         o = rng.randrange(nobj)
         u = rng.choice(USERS)
         realm = rng.choice(REALMS) if cls == "htdigest" else None
+        if encoding == "utf-8" and rng.random() < 0.12:
+            # names that are not in Unicode normal form (decomposed accents, ANGSTROM SIGN, conjoining jamo): a name is the bytes given
+            u = rng.choice(UNNORMALISED)
+            if realm is not None and rng.random() < 0.5:
+                realm = rng.choice(UNNORMALISED)
         if cls == "htdigest" and cfg["default_realm"] and rng.random() < 0.4:
             realm = None  # use default_realm
         as_bytes = rng.random() < 0.25
